@@ -915,8 +915,69 @@ def run_setop_replace(oid, params, tier):
                       max_paths=5, known=(), sample={"obligation": oid})
 
 
+def _denoted_width(got):
+    if z3.is_bv(got):
+        return got.size()
+    if z3.is_fp(got):
+        return got.sort().ebits() + got.sort().sbits()
+    return None
+
+
+def run_z3rt_meta(oid, params, tier):
+    """C05: metadata of what comes back from the REAL Z3 round trip (claripy.simplify -> BackendZ3._abstract_internal) for floating-point
+    and string expressions, including conversions between widths: reported width against the sort of the re-converted term, variables,
+    symbolic flag, depth - for the result and every sub-expression.  Concrete expressions (no symbolic constants cross libz3)."""
+    import claripy
+
+    from . import p_c09
+    from .astleg import _depth
+
+    res = common.result(oid, "holds")
+    res["paths"] = 1
+    name = params["name"]
+    table = p_c09.FP_SHAPES if params["kind"] == "fp" else p_c09.STR_SHAPES
+    e = table[name](claripy)[0]
+    fails = []
+    try:
+        r = claripy.simplify(e)
+    except Exception as ex:  # noqa: BLE001
+        res["status"] = "inconclusive"
+        res["inconclusive"] = [f"simplify raised {type(ex).__name__}"]
+        return res
+    memo = {}
+    for lab, node in [("result", r)] + [("sub-expression", c) for c in r.children_asts()] + [("original", e)]:
+        try:
+            got = claripy.backends.z3.convert(node)
+        except Exception:  # noqa: BLE001
+            continue
+        w = _denoted_width(got)
+        if w is not None and getattr(node, "length", None) != w:
+            fails.append(f"{lab} {node!r:.80} reports width {getattr(node, 'length', None)}, its Z3 sort has {w} bits")
+        if isinstance(node, claripy.ast.Bool) and getattr(node, "length", None) not in (None,):
+            fails.append(f"{lab} {node!r:.80} is Boolean but reports a width")
+        leaves = {l.args[0] for l in node.leaf_asts() if l.op in ("BVS", "BoolS", "FPS", "StringS")}
+        if not leaves <= set(node.variables):
+            fails.append(f"{lab} {node!r:.80}: variables {sorted(node.variables)} miss {sorted(leaves - set(node.variables))}")
+        if leaves and not node.symbolic:
+            fails.append(f"{lab} {node!r:.80} reported concrete but has variables")
+        if node.depth != _depth(node, memo):
+            fails.append(f"{lab} {node!r:.80}: depth {node.depth}, recomputed {_depth(node, memo)}")
+    res["sample"] = {"obligation": oid, "expr": repr(e)[:120], "simplified": repr(r)[:120]}
+    if fails:
+        res["status"] = "violation"
+        res["detail"] = "simplify(" + repr(e)[:100] + "): " + fails[0]
+        res["cex"] = [{"harness": "harness.p_c08", "kind": "z3rt-meta", "params": params, "consts": {}, "obligation": oid, "detail": res["detail"][:300]}]
+    return res
+
+
 def meta_obligations(tier):
     out = []
+    from . import p_c09
+
+    for nm in p_c09.FP_SHAPES:
+        out.append((f"meta/z3rt:fp:{nm}", {"kind": "fp", "name": nm, "meta": True}))
+    for nm in p_c09.STR_SHAPES:
+        out.append((f"meta/z3rt:str:{nm}", {"kind": "str", "name": nm, "meta": True}))
     for oid, p in obligations(tier):
         if oid.split(":")[0] in ("replace-var", "replace-sub", "canon", "excavate", "burrow"):
             out.append(("meta/" + oid, dict(p, meta=True)))
@@ -933,6 +994,8 @@ def run_obligation(oid, params, tier):
         key = key[5:]
     if key == "setop-replace":
         return run_setop_replace(oid, params, tier)
+    if key == "z3rt":
+        return run_z3rt_meta(oid, params, tier)
     return RUNNERS[key](oid, params, tier)
 
 
@@ -953,6 +1016,9 @@ def replay(case):
     META[0] = str(case.get("obligation", "")).startswith("meta/")
     if k == "setop-replace":
         r = run_setop_replace(case["obligation"], case["params"], "quick")
+        return {"violated": r["status"] == "violation", "detail": r.get("detail", "")}
+    if k == "z3rt-meta":
+        r = run_z3rt_meta(case["obligation"], case["params"], "quick")
         return {"violated": r["status"] == "violation", "detail": r.get("detail", "")}
     try:
         if k in ("replace-var", "replace-sub", "canon", "excavate", "burrow"):
